@@ -4,8 +4,9 @@
    - ser_static_no_unsupported / size_static_no_unsupported / des_static_no_unsupported: the static member classification excludes the
      Crash "Unsupported" outcome of Layout.serialize_field / member_size / load_field for ALL values and buffers, whatever the codecs of the
      member types do, as long as those do not answer "Unsupported" themselves;
-   - enc_size_no_unsupported: for a well-formed schema, serialize and size of ANY value at ANY fuel never answer "Unsupported"
-     (induction on the type-nesting fuel), given that the sort-key view does not. *)
+   - codecs_no_unsupported_all: for a well-formed schema, serialize, size, deserialize and factory-deserialize of ANY value / buffer at ANY
+     fuel never answer "Unsupported" (well-founded induction on the type-nesting fuel over the whole mutual block), given that the sort-key
+     view does not. *)
 From Symv Require Import Base.Bytes Base.PyOps Cats.LayoutInst Cats.Dialect Gen.SchemaSc Gen.SchemaNc.
 From Coq Require Import Lia.
 Open Scope string_scope.
@@ -404,121 +405,6 @@ Proof.
   rewrite (Hpq _ Hx), (IH Hl). reflexivity.
 Qed.
 
-(* ---------- serialize and size of a well-formed schema never answer "Unsupported" ---------- *)
-Section Encode.
-Variable OP : ops.
-Variable tm : list decl.
-Hypothesis Hwf : wf_schema tm = true.
-(* the sort-key view of ill-typed values is the one place where the interpreter answers Unsupported on a VALUE ground (a comparer member whose
-   value is not an int / byte string); admissible values never reach it -- kept as an explicit premise *)
-Hypothesis Hkey : forall fuel t v, nu (key OP tm fuel t v).
-
-Definition Rk (k : nat) : rec_ops :=
-  {| enc_t := enc OP tm k; size_t := size OP tm k; dec_t := no_dec; decf_t := no_dec; key_t := key OP tm k |}.
-
-Lemma enc_S k t v : enc OP tm (S k) t v =
-  match v with
-  | VStruct cls _ => match lookup_struct tm cls with Some s => enc_struct OP tm k s v | None => Crash "AttributeError" end
-  | _ =>
-    match lookup tm t with
-    | Some (DAlias _ (LInt i) _) => match v with VInt z => py_to_bytes (Z.to_nat (it_size i)) (negb (it_unsigned i)) z | _ => Crash "AttributeError" end
-    | Some (DAlias _ (LBuffer _) _) => match v with VBytes b => Ok b | _ => Crash "AttributeError" end
-    | Some (DEnum _ b _ _ _) => match v with VInt z => py_to_bytes (Z.to_nat (it_size b)) (negb (it_unsigned b)) z | _ => Crash "AttributeError" end
-    | _ => Crash "AttributeError"
-    end
-  end.
-Proof. reflexivity. Qed.
-
-Lemma size_S k t v : size OP tm (S k) t v =
-  match v with
-  | VStruct cls _ => match lookup_struct tm cls with Some s => size_struct OP tm k s v | None => Crash "AttributeError" end
-  | VNull => Crash "AttributeError"
-  | _ =>
-    match lookup tm t with
-    | Some (DAlias _ (LInt i) _) => Ok (it_size i)
-    | Some (DAlias _ (LBuffer n) _) => Ok n
-    | Some (DEnum _ b _ _ _) => Ok (it_size b)
-    | _ => Crash "AttributeError"
-    end
-  end.
-Proof. reflexivity. Qed.
-
-Lemma enc_struct_S k s v : enc_struct OP tm (S k) s v =
-  bind (size_struct OP tm k s v) (fun total =>
-  match base_struct tm s with
-  | Some b =>
-    bind (serialize_fields_go OP tm (Rk k) b (struct_fields_nc s) total v true (struct_fields_nc b)) (fun hb =>
-    bind (serialize_fields_go OP tm (Rk k) s (struct_fields_nc s) total v true (own_fields tm s)) (fun ob => Ok (hb ++ ob)))
-  | None => serialize_fields_go OP tm (Rk k) s (struct_fields_nc s) total v true (own_fields tm s)
-  end).
-Proof. reflexivity. Qed.
-
-Lemma size_struct_S k s v : size_struct OP tm (S k) s v =
-  match base_struct tm s with
-  | Some b =>
-    bind (size_fields OP tm (Rk k) (struct_fields_nc s) v (struct_fields_nc b)) (fun hs =>
-    bind (size_fields OP tm (Rk k) (struct_fields_nc s) v (own_fields tm s)) (fun os => Ok (hs + os)))
-  | None => size_fields OP tm (Rk k) (struct_fields_nc s) v (own_fields tm s)
-  end.
-Proof. reflexivity. Qed.
-
-Definition enc_goal (k : nat) : Prop :=
-  (forall t v, nu (enc OP tm k t v)) /\ (forall t v, nu (size OP tm k t v))
-  /\ (forall s v, In (DStruct s) tm -> nu (enc_struct OP tm k s v)) /\ (forall s v, In (DStruct s) tm -> nu (size_struct OP tm k s v)).
-
-Lemma enc_goal_all k : enc_goal k.
-Proof.
-  induction k as [|k [IHe [IHs [IHes IHss]]]].
-  - repeat split; intros; cbn; nu_crash.
-  - assert (HR : R_ser_ok (Rk k)) by (repeat split; cbn [Rk enc_t size_t key_t]; auto).
-    repeat split.
-    + intros t v. rewrite enc_S. destruct v as [z|b|l|cls fs|].
-      4: { destruct (lookup_struct tm cls) as [s|] eqn:Hl; [|nu_crash]. apply IHes. exact (lookup_struct_in _ _ _ Hl). }
-      all: destruct (lookup tm t) as [[n [i|sz] c|n b0 vs at_ c|s0]|]; try nu_crash; apply nu_py_to_bytes.
-    + intros t v. rewrite size_S. destruct v as [z|b|l|cls fs|].
-      4: { destruct (lookup_struct tm cls) as [s|] eqn:Hl; [|nu_crash]. apply IHss. exact (lookup_struct_in _ _ _ Hl). }
-      all: try nu_crash; destruct (lookup tm t) as [[n [i|sz] c|n b0 vs at_ c|s0]|]; nu_crash.
-    + intros s v Hin. rewrite enc_struct_S.
-      pose proof (wf_layout_serialize tm s Hwf Hin) as Hl. unfold layout_serialize_ok in Hl. apply Bool.andb_true_iff in Hl as [Hown Hbase].
-      assert (Hown' : forallb (ser_static_ok tm s (struct_fields_nc s)) (own_fields tm s) = true).
-      { unfold own_fields. apply forallb_filter. exact Hown. }
-      apply nu_bind; [apply IHss; exact Hin|]. intros total _.
-      destruct (base_struct tm s) as [b|].
-      * apply nu_bind; [apply nu_serialize_fields_go; assumption|]. intros hb _.
-        apply nu_bind; [apply nu_serialize_fields_go; assumption|]. intros; apply nu_ok.
-      * apply nu_serialize_fields_go; assumption.
-    + intros s v Hin. rewrite size_struct_S.
-      pose proof (wf_layout_serialize tm s Hwf Hin) as Hl. unfold layout_serialize_ok in Hl. apply Bool.andb_true_iff in Hl as [Hown Hbase].
-      assert (Hown' : forallb (size_static_ok tm (struct_fields_nc s)) (own_fields tm s) = true).
-      { unfold own_fields. apply forallb_filter. revert Hown. apply forallb_impl. intros f. apply ser_static_size. }
-      destruct (base_struct tm s) as [b|].
-      * apply nu_bind; [apply nu_size_fields; [exact HR|]|].
-        -- revert Hbase. apply forallb_impl. intros f. apply ser_static_size.
-        -- intros hs _. apply nu_bind; [apply nu_size_fields; assumption|]. intros; apply nu_ok.
-      * apply nu_size_fields; assumption.
-Qed.
-
-Theorem enc_size_no_unsupported_all fuel t v : nu (enc OP tm fuel t v) /\ nu (size OP tm fuel t v).
-Proof. destruct (enc_goal_all fuel) as [He [Hs _]]. split; [apply He|apply Hs]. Qed.
-End Encode.
-
-(* every struct of a well-formed schema: each member (own, inherited, and the parent's as the parent's methods see them) is classified into a
-   supported case of the interpreter, on both the serialize and the deserialize side *)
-Lemma wf_members_supported tm s : wf_schema tm = true -> In (DStruct s) tm ->
-  layout_serialize_ok tm s = true /\ layout_deserialize_ok tm s = true.
-Proof. intros Hwf Hin. split; [apply wf_layout_serialize|apply wf_layout_deserialize]; assumption. Qed.
-
-(* non-vacuity: without wf_schema the Unsupported outcome is reachable (an array of 16-bit ints has no printer path), and wf_schema rejects it *)
-Definition bad_schema : list decl :=
-  [DStruct {| s_name := "Ho"; s_disp := SdNone;
-              s_fields := [Field "ws" (FArray {| a_elem := ElInt {| it_unsigned := true; it_size := 2; it_sizeref := None |}; a_size := SzNum 2;
-                                                   a_sort_key := None; a_byte_constrained := false; a_alignment := None; a_last_padded := None |})
-                                 Ast.VNone DispNone None None];
-              s_factory_type := None; s_attrs := None; s_comment := None; s_requires_unaligned := false |}].
-Lemma unsupported_reachable :
-  enc ops_now bad_schema type_fuel "Ho" (VStruct "Ho" [("ws", VArr [VInt 1; VInt 2])]) = Crash "Unsupported" /\ wf_schema bad_schema = false.
-Proof. split; vm_compute; reflexivity. Qed.
-
 (* ---------- deserialize and factory-deserialize of a well-formed schema never answer "Unsupported" ---------- *)
 Section DecodeLoop.
 Variable OP : ops.
@@ -565,21 +451,62 @@ Proof.
 Qed.
 End DecodeLoop.
 
-Section Decode.
+(* ---------- the codecs of a well-formed schema never answer "Unsupported": serialize, size, deserialize, factory ---------- *)
+Section Codec.
 Variable OP : ops.
 Variable tm : list decl.
 Hypothesis Hwf : wf_schema tm = true.
+(* the sort-key view of ill-typed values is the one place where the interpreter answers Unsupported on a VALUE ground (a comparer member whose
+   value is not an int / byte string); admissible values never reach it -- kept as an explicit premise *)
 Hypothesis Hkey : forall fuel t v, nu (key OP tm fuel t v).
 
 Definition Rd (k : nat) : rec_ops :=
   {| enc_t := enc OP tm k; size_t := size OP tm k; dec_t := dec OP tm k; decf_t := decf OP tm k; key_t := key OP tm k |}.
 
-Lemma dec_header_S k b allfs buf : dec_header OP tm (S k) b allfs buf =
-  let bfs := struct_fields_nc b in
-  let has_size := existsb (fun f => String.eqb (f_name f) "size") bfs in
-  bind (deserialize_loop OP tm (Rd k) b allfs bfs [] [] [] [] buf) (fun r =>
-  let size_ := if has_size then match eget (fst r) "size" with Some (VInt z) => z | _ => 0 end else Z.of_nat (length buf) in
-  Ok (fst r, size_ - Z.of_nat (length (snd r)), size_)).
+Lemma enc_S k t v : enc OP tm (S k) t v =
+  match v with
+  | VStruct cls _ => match lookup_struct tm cls with Some s => enc_struct OP tm k s v | None => Crash "AttributeError" end
+  | _ =>
+    match lookup tm t with
+    | Some (DAlias _ (LInt i) _) => match v with VInt z => py_to_bytes (Z.to_nat (it_size i)) (negb (it_unsigned i)) z | _ => Crash "AttributeError" end
+    | Some (DAlias _ (LBuffer _) _) => match v with VBytes b => Ok b | _ => Crash "AttributeError" end
+    | Some (DEnum _ b _ _ _) => match v with VInt z => py_to_bytes (Z.to_nat (it_size b)) (negb (it_unsigned b)) z | _ => Crash "AttributeError" end
+    | _ => Crash "AttributeError"
+    end
+  end.
+Proof. reflexivity. Qed.
+
+Lemma size_S k t v : size OP tm (S k) t v =
+  match v with
+  | VStruct cls _ => match lookup_struct tm cls with Some s => size_struct OP tm k s v | None => Crash "AttributeError" end
+  | VNull => Crash "AttributeError"
+  | _ =>
+    match lookup tm t with
+    | Some (DAlias _ (LInt i) _) => Ok (it_size i)
+    | Some (DAlias _ (LBuffer n) _) => Ok n
+    | Some (DEnum _ b _ _ _) => Ok (it_size b)
+    | _ => Crash "AttributeError"
+    end
+  end.
+Proof. reflexivity. Qed.
+
+Lemma enc_struct_S k s v : enc_struct OP tm (S k) s v =
+  bind (size_struct OP tm k s v) (fun total =>
+  match base_struct tm s with
+  | Some b =>
+    bind (serialize_fields_go OP tm (Rd k) b (struct_fields_nc s) total v true (struct_fields_nc b)) (fun hb =>
+    bind (serialize_fields_go OP tm (Rd k) s (struct_fields_nc s) total v true (own_fields tm s)) (fun ob => Ok (hb ++ ob)))
+  | None => serialize_fields_go OP tm (Rd k) s (struct_fields_nc s) total v true (own_fields tm s)
+  end).
+Proof. reflexivity. Qed.
+
+Lemma size_struct_S k s v : size_struct OP tm (S k) s v =
+  match base_struct tm s with
+  | Some b =>
+    bind (size_fields OP tm (Rd k) (struct_fields_nc s) v (struct_fields_nc b)) (fun hs =>
+    bind (size_fields OP tm (Rd k) (struct_fields_nc s) v (own_fields tm s)) (fun os => Ok (hs + os)))
+  | None => size_fields OP tm (Rd k) (struct_fields_nc s) v (own_fields tm s)
+  end.
 Proof. reflexivity. Qed.
 
 Lemma dec_S k t buf : dec OP tm (S k) t buf =
@@ -591,71 +518,157 @@ Lemma dec_S k t buf : dec OP tm (S k) t buf =
   | Some (DEnum _ b vs at_ _) =>
     let x := py_from_bytes (Z.to_nat (it_size b)) (negb (it_unsigned b)) buf in
     if enum_valid vs (is_bitwise at_) x then Ok (VInt x) else Reject
-  | Some (DStruct s) =>
-    match s_disp s with
-    | SdAbstract => Crash "AttributeError"
-    | _ =>
-      let allfs := struct_fields_nc s in
-      match base_struct tm s with
-      | Some b =>
-        bind (dec_header OP tm k b allfs buf) (fun h =>
-        let '(e0, ws, we) := h in
-        let wbuf := zskipn ws (zfirstn we buf) in
-        bind (deserialize_loop OP tm (Rd k) s allfs (own_fields tm s) [] [] [] e0 wbuf) (fun r =>
-        Ok (VStruct (s_name s) (collect s (fst r)))))
-      | None =>
-        bind (deserialize_loop OP tm (Rd k) s allfs (own_fields tm s) [] [] [] [] buf) (fun r =>
-        Ok (VStruct (s_name s) (collect s (fst r))))
-      end
-    end
+  | Some (DStruct s) => dec_struct OP tm k s buf
   | None => Crash "NameError"
   end.
 Proof. reflexivity. Qed.
 
-Definition dec_goal (k : nat) : Prop :=
-  (forall t b, nu (dec OP tm k t b)) /\ (forall t b, nu (decf OP tm k t b))
-  /\ (forall b allfs buf, forallb (des_static_ok tm allfs) (struct_fields_nc b) = true -> nu (dec_header OP tm k b allfs buf)).
+Lemma dec_struct_S k s buf : dec_struct OP tm (S k) s buf =
+  match s_disp s with
+  | SdAbstract => Crash "AttributeError"
+  | _ =>
+    let allfs := struct_fields_nc s in
+    match base_struct tm s with
+    | Some b =>
+      bind (dec_header_with OP tm (Rd k) b allfs buf) (fun h =>
+      let '(e0, ws, we) := h in
+      let wbuf := zskipn ws (zfirstn we buf) in
+      bind (deserialize_loop OP tm (Rd k) s allfs (own_fields tm s) [] [] [] e0 wbuf) (fun r =>
+      Ok (VStruct (s_name s) (collect s (fst r)))))
+    | None =>
+      bind (deserialize_loop OP tm (Rd k) s allfs (own_fields tm s) [] [] [] [] buf) (fun r =>
+      Ok (VStruct (s_name s) (collect s (fst r))))
+    end
+  end.
+Proof. reflexivity. Qed.
+
+(* the factory: header at member level k1, then the chosen child's own deserialize; the lookup of the child is abstracted as `pick` *)
+Lemma decf_SS k1 t buf : exists pick : struct -> attribute -> list (string * value) -> option decl,
+  (forall a da e0 d, pick a da e0 = Some d -> In d tm) /\
+  decf OP tm (S (S k1)) t buf =
+  match lookup_struct tm t with
+  | Some a =>
+    bind (dec_header_with OP tm (Rd k1) a (struct_fields_nc a) buf) (fun h =>
+    let '(e0, _, _) := h in
+    match find_attr (s_attrs a) "discriminator" with
+    | Some da => match pick a da e0 with Some (DStruct c) => dec_struct OP tm (S k1) c buf | _ => Crash "KeyError" end
+    | None => Crash "KeyError"
+    end)
+  | None => Crash "NameError"
+  end.
+Proof.
+  eexists (fun a da e0 => _). split.
+  2: { cbn [decf]. reflexivity. }
+  intros a da e0 d H. cbv beta in H. apply find_some in H as [H _]. apply in_rev in H. apply filter_In in H as [H _]. exact H.
+Qed.
+
+Definition all_goal (k : nat) : Prop :=
+  (forall t v, nu (enc OP tm k t v)) /\ (forall t v, nu (size OP tm k t v))
+  /\ (forall s v, In (DStruct s) tm -> nu (enc_struct OP tm k s v)) /\ (forall s v, In (DStruct s) tm -> nu (size_struct OP tm k s v))
+  /\ (forall t b, nu (dec OP tm k t b)) /\ (forall s b, In (DStruct s) tm -> nu (dec_struct OP tm k s b))
+  /\ (forall t b, nu (decf OP tm k t b)).
+
+Lemma Rd_ser_ok k : all_goal k -> R_ser_ok (Rd k).
+Proof. intros [He [Hs _]]. repeat split; cbn [Rd enc_t size_t key_t]; auto. Qed.
+Lemma Rd_des_ok k : all_goal k -> R_des_ok (Rd k).
+Proof. intros [He [Hs [_ [_ [Hd [_ Hf]]]]]]. repeat split; cbn [Rd dec_t decf_t size_t key_t]; auto. Qed.
 
 Lemma queue_ok_nil allfs : queue_ok tm allfs [].
 Proof. constructor. Qed.
 
-Lemma dec_goal_all k : dec_goal k.
+Lemma nu_dec_header_with R b allfs buf : R_des_ok R -> forallb (des_static_ok tm allfs) (struct_fields_nc b) = true ->
+  nu (dec_header_with OP tm R b allfs buf).
 Proof.
-  induction k as [|k [IHd [IHf IHh]]].
-  - repeat split; intros; cbn; nu_crash.
-  - assert (HR : R_des_ok (Rd k)).
-    { repeat split; cbn [Rd dec_t decf_t size_t key_t]; auto; intros t v; apply (enc_size_no_unsupported_all OP tm Hwf Hkey k t v). }
-    assert (Hh : forall b allfs buf, forallb (des_static_ok tm allfs) (struct_fields_nc b) = true -> nu (dec_header OP tm (S k) b allfs buf)).
-    { intros b allfs buf Hb. rewrite dec_header_S. cbv zeta.
-      apply nu_bind; [apply nu_deserialize_loop; [exact HR|exact Hb|apply queue_ok_nil]|]. intros; apply nu_ok. }
-    repeat split; [| |exact Hh].
-    + intros t buf. rewrite dec_S.
-      destruct (lookup tm t) as [[n [i|sz] c|n b0 vs at_ c|s]|] eqn:Hl; try nu_crash.
-      * cbv zeta. destruct (base_value_bad OP (it_size i) false _); nu_crash.
-      * apply nu_bind; [apply nu_get_bytes|intros; apply nu_ok].
-      * cbv zeta. destruct (enum_valid vs (is_bitwise at_) _); nu_crash.
-      * assert (Hin : In (DStruct s) tm).
-        { unfold lookup in Hl. exact (proj1 (find_some _ _ Hl)). }
-        pose proof (wf_layout_deserialize tm s Hwf Hin) as Hd. unfold layout_deserialize_ok in Hd. cbv zeta in Hd.
-        apply Bool.andb_true_iff in Hd as [Hown Hbase].
-        assert (Hown' : forallb (des_static_ok tm (struct_fields_nc s)) (own_fields tm s) = true).
-        { unfold own_fields. apply forallb_filter. exact Hown. }
-        destruct (s_disp s); try nu_crash; cbv zeta.
-        all: destruct (base_struct tm s) as [b|].
-        all: try (apply nu_bind; [apply nu_deserialize_loop; [exact HR|exact Hown'|apply queue_ok_nil]|intros; apply nu_ok]).
-        all: apply nu_bind; [apply IHh; exact Hbase|]; intros [[e0 ws] we] _;
-             apply nu_bind; [apply nu_deserialize_loop; [exact HR|exact Hown'|apply queue_ok_nil]|intros; apply nu_ok].
-    + intros t buf. cbn [decf].
-      destruct (lookup_struct tm t) as [a|] eqn:Hl; [|nu_crash].
-      pose proof (lookup_struct_in _ _ _ Hl) as Hin.
-      pose proof (wf_layout_deserialize tm a Hwf Hin) as Hd. unfold layout_deserialize_ok in Hd. cbv zeta in Hd.
-      apply Bool.andb_true_iff in Hd as [Hall _].
-      apply nu_bind; [apply IHh; exact Hall|]. intros [[e0 ws] we] _.
-      destruct (find_attr (s_attrs a) "discriminator"); [|nu_crash].
-      match goal with |- nu (match ?x with Some (DStruct c) => _ | _ => _ end) => destruct x as [[| |c]|] end; try nu_crash.
-      apply IHd.
+  intros HR Hb. unfold dec_header_with. cbv zeta.
+  apply nu_bind; [apply nu_deserialize_loop; [exact HR|exact Hb|apply queue_ok_nil]|]. intros; apply nu_ok.
 Qed.
 
-Theorem dec_no_unsupported_all fuel t b : nu (dec OP tm fuel t b) /\ nu (decf OP tm fuel t b).
-Proof. destruct (dec_goal_all fuel) as [Hd [Hf _]]. split; [apply Hd|apply Hf]. Qed.
-End Decode.
+Lemma all_goal_O : all_goal O.
+Proof. repeat split; intros; cbn; nu_crash. Qed.
+
+
+Lemma all_goal_all k : all_goal k.
+Proof.
+  induction k as [k IH] using lt_wf_ind.
+  destruct k as [|k]; [exact all_goal_O|].
+  pose proof (IH k (Nat.lt_succ_diag_r k)) as Gk.
+  pose proof (Rd_ser_ok k Gk) as HRs. pose proof (Rd_des_ok k Gk) as HRd.
+  destruct Gk as [IHe [IHs [IHes [IHss [IHd [IHds IHf]]]]]].
+  assert (Hds : forall s b, In (DStruct s) tm -> nu (dec_struct OP tm (S k) s b)).
+  { intros s buf Hin. rewrite dec_struct_S.
+    pose proof (wf_layout_deserialize tm s Hwf Hin) as Hd. unfold layout_deserialize_ok in Hd. cbv zeta in Hd.
+    apply Bool.andb_true_iff in Hd as [Hown Hbase].
+    assert (Hown' : forallb (des_static_ok tm (struct_fields_nc s)) (own_fields tm s) = true).
+    { unfold own_fields. apply forallb_filter. exact Hown. }
+    destruct (s_disp s); try nu_crash; cbv zeta.
+    all: destruct (base_struct tm s) as [b|].
+    all: try (apply nu_bind; [apply nu_deserialize_loop; [exact HRd|exact Hown'|apply queue_ok_nil]|intros; apply nu_ok]).
+    all: apply nu_bind; [apply nu_dec_header_with; [exact HRd|exact Hbase]|]; intros [[e0 ws] we] _;
+         apply nu_bind; [apply nu_deserialize_loop; [exact HRd|exact Hown'|apply queue_ok_nil]|intros; apply nu_ok]. }
+  repeat split.
+  - intros t v. rewrite enc_S. destruct v as [z|b|l|cls fs|].
+    4: { destruct (lookup_struct tm cls) as [s|] eqn:Hl; [|nu_crash]. apply IHes. exact (lookup_struct_in _ _ _ Hl). }
+    all: destruct (lookup tm t) as [[n [i|sz] c|n b0 vs at_ c|s0]|]; try nu_crash; apply nu_py_to_bytes.
+  - intros t v. rewrite size_S. destruct v as [z|b|l|cls fs|].
+    4: { destruct (lookup_struct tm cls) as [s|] eqn:Hl; [|nu_crash]. apply IHss. exact (lookup_struct_in _ _ _ Hl). }
+    all: try nu_crash; destruct (lookup tm t) as [[n [i|sz] c|n b0 vs at_ c|s0]|]; nu_crash.
+  - intros s v Hin. rewrite enc_struct_S.
+    pose proof (wf_layout_serialize tm s Hwf Hin) as Hl. unfold layout_serialize_ok in Hl. cbv zeta in Hl. apply Bool.andb_true_iff in Hl as [Hown Hbase].
+    assert (Hown' : forallb (ser_static_ok tm s (struct_fields_nc s)) (own_fields tm s) = true).
+    { unfold own_fields. apply forallb_filter. exact Hown. }
+    apply nu_bind; [apply IHss; exact Hin|]. intros total _.
+    destruct (base_struct tm s) as [b|].
+    + apply nu_bind; [apply nu_serialize_fields_go; assumption|]. intros hb _.
+      apply nu_bind; [apply nu_serialize_fields_go; assumption|]. intros; apply nu_ok.
+    + apply nu_serialize_fields_go; assumption.
+  - intros s v Hin. rewrite size_struct_S.
+    pose proof (wf_layout_serialize tm s Hwf Hin) as Hl. unfold layout_serialize_ok in Hl. cbv zeta in Hl. apply Bool.andb_true_iff in Hl as [Hown Hbase].
+    assert (Hown' : forallb (size_static_ok tm (struct_fields_nc s)) (own_fields tm s) = true).
+    { unfold own_fields. apply forallb_filter. revert Hown. apply forallb_impl. intros f. apply ser_static_size. }
+    destruct (base_struct tm s) as [b|].
+    + apply nu_bind; [apply nu_size_fields; [exact HRs|]|].
+      * revert Hbase. apply forallb_impl. intros f. apply ser_static_size.
+      * intros hs _. apply nu_bind; [apply nu_size_fields; assumption|]. intros; apply nu_ok.
+    + apply nu_size_fields; assumption.
+  - intros t buf. rewrite dec_S.
+    destruct (lookup tm t) as [[n [i|sz] c|n b0 vs at_ c|s]|] eqn:Hl; try nu_crash.
+    + cbv zeta. destruct (base_value_bad OP (it_size i) false _); nu_crash.
+    + apply nu_bind; [apply nu_get_bytes|intros; apply nu_ok].
+    + cbv zeta. destruct (enum_valid vs (is_bitwise at_) _); nu_crash.
+    + apply IHds. unfold lookup in Hl. exact (proj1 (find_some _ _ Hl)).
+  - exact Hds.
+  - intros t buf. destruct k as [|k1]; [cbn; nu_crash|].
+    destruct (decf_SS k1 t buf) as [pick [Hpick ->]].
+    destruct (lookup_struct tm t) as [a|] eqn:Hl; [|nu_crash].
+    pose proof (lookup_struct_in _ _ _ Hl) as Hin.
+    pose proof (wf_layout_deserialize tm a Hwf Hin) as Hd. unfold layout_deserialize_ok in Hd. cbv zeta in Hd.
+    apply Bool.andb_true_iff in Hd as [Hall _].
+    assert (Gk1 : all_goal k1) by (apply IH; lia).
+    apply nu_bind; [apply nu_dec_header_with; [exact (Rd_des_ok k1 Gk1)|exact Hall]|]. intros [[e0 ws] we] _.
+    destruct (find_attr (s_attrs a) "discriminator") as [da|]; [|nu_crash].
+    destruct (pick a da e0) as [[| |c]|] eqn:Hp; try nu_crash.
+    apply IHds. exact (Hpick _ _ _ _ Hp).
+Qed.
+
+Theorem codecs_no_unsupported_all fuel t v b :
+  nu (enc OP tm fuel t v) /\ nu (size OP tm fuel t v) /\ nu (dec OP tm fuel t b) /\ nu (decf OP tm fuel t b).
+Proof. destruct (all_goal_all fuel) as [He [Hs [_ [_ [Hd [_ Hf]]]]]]. repeat split; auto. Qed.
+End Codec.
+
+(* every struct of a well-formed schema: each member (own, inherited, and the parent's as the parent's methods see them) is classified into a
+   supported case of the interpreter, on both the serialize and the deserialize side *)
+Lemma wf_members_supported tm s : wf_schema tm = true -> In (DStruct s) tm ->
+  layout_serialize_ok tm s = true /\ layout_deserialize_ok tm s = true.
+Proof. intros Hwf Hin. split; [apply wf_layout_serialize|apply wf_layout_deserialize]; assumption. Qed.
+
+(* non-vacuity: without wf_schema the Unsupported outcome is reachable (an array of 16-bit ints has no printer path), and wf_schema rejects it *)
+Definition bad_schema : list decl :=
+  [DStruct {| s_name := "Ho"; s_disp := SdNone;
+              s_fields := [Field "ws" (FArray {| a_elem := ElInt {| it_unsigned := true; it_size := 2; it_sizeref := None |}; a_size := SzNum 2;
+                                                   a_sort_key := None; a_byte_constrained := false; a_alignment := None; a_last_padded := None |})
+                                 Ast.VNone DispNone None None];
+              s_factory_type := None; s_attrs := None; s_comment := None; s_requires_unaligned := false |}].
+Lemma unsupported_reachable :
+  enc ops_now bad_schema type_fuel "Ho" (VStruct "Ho" [("ws", VArr [VInt 1; VInt 2])]) = Crash "Unsupported" /\ wf_schema bad_schema = false.
+Proof. split; vm_compute; reflexivity. Qed.
+
